@@ -27,6 +27,7 @@ type Result struct {
 	Distinct     int64          `json:"distinct"`    // distinct non-trivial cases / outcomes (measured)
 	Rule         string         `json:"rule"`
 	Exhaustive   bool           `json:"exhaustive"`
+	Supporting   bool           `json:"supporting,omitempty"` // supporting evidence only (free-running race pass): not part of the exhaustiveness claim
 	Bounds       map[string]any `json:"bounds,omitempty"`
 	Outcomes     map[string]int `json:"outcomes,omitempty"`
 	Samples      []any          `json:"samples,omitempty"`
